@@ -19,6 +19,9 @@ DRIVER_BIN = Path(os.environ.get("BB_DRIVER_BIN", VERIF / "lean" / ".lake" / "bu
 os.environ.setdefault("BITBIRCH_NO_EXTENSIONS", "1")
 if str(REPO) not in sys.path:
     sys.path.insert(0, str(REPO))
+if "BBLEAN_REPO" in os.environ:
+    # a scratch copy of the repository (seeded-change evaluation): child processes (`bb`, pools) must import it too
+    os.environ["PYTHONPATH"] = f"{REPO}:{os.environ.get('PYTHONPATH', '')}"
 
 warnings.filterwarnings("ignore")
 
